@@ -54,3 +54,20 @@ add("C19", "exploration", "property-based differential testing (rapid) against a
     "Marshal must equal the reference encoder byte for byte for every drawn or enumerated valid allocation (all 69904 stream x spatial slot assignments), Unmarshal must consume everything and return an equal value also into a used receiver, single-defect invalid allocations must be rejected, and hostile inputs (random, mutated encodings, with an earlier decode) must not panic nor over-report consumed bytes.",
     "Trusted base: harness/ref/vla and ref/leb128 (my reading of the specification; shared bitmask only when every stream below the count has the same mask).",
     "DESIGN.md 4/C19")
+
+add("C10", "exploration", "property-based differential testing (rapid) of H264Payloader/H264Packet against an independent RFC 6184 parser, reassembler and encoder",
+    "Generated access-unit sequences (all NAL types 1-23, sizes around every fragmentation threshold, SPS/PPS pairs across calls, MTU 3 upward) are packetised; an independent parser checks every payload's shape (single/STAP-A/FU-A, S/E, >=2 fragments, MTU), an independent reassembler recovers the units byte-exactly and H264Packet must output exactly what the reference depacketizer does, payload by payload, in Annex-B and AVC framing; a second sub-check feeds H264Packet streams from an independent encoder (arbitrary legal packetisations).",
+    "Trusted base: harness/ref/h264rtp (my reading of RFC 6184). Input domain is the statement's: start-code-free bodies, non-zero last byte, parameter sets as adjacent pairs.",
+    "DESIGN.md 4/C10")
+add("C11", "exploration", "property-based differential testing (rapid) of VP8Payloader/VP8Packet against an independent RFC 7741 descriptor builder/parser; exhaustive first-two-octet enumeration (thorough)",
+    "Frames around every split threshold with the running picture id steered to 0/127/128/32767 are packetised and every packet is read by VP8Packet and by the reference parser (concatenation, S bit, PID 0, picture id form and progression, MTU); reference-built descriptors with all flag combinations, arbitrary field values, reserved bits and all truncations are decoded by VP8Packet preloaded with other values.",
+    "Trusted base: harness/ref/vp8desc. Acceptance of a packet that ends right after the descriptor is not asserted.",
+    "DESIGN.md 4/C11")
+add("C12", "exploration", "property-based differential testing (rapid) of VP9Payloader/VP9Packet/vp9.Header against an independent RFC 9628 descriptor codec and an independent uncompressed-header bit writer",
+    "Frames whose uncompressed header is written bit by bit by the harness (all profiles, colour configurations, 16-bit sizes, garbage in reserved bits) are packetised in both modes; every packet is read by VP9Packet and the reference parser (concatenation, B/E, picture id, P, scalability structure width/height, MTU); reference-built descriptors including scalability structures with up to 255 picture groups and all truncations are decoded; vp9.Header.Unmarshal is compared field by field with the writer and must reject short prefixes.",
+    "Trusted base: harness/ref/vp9desc, ref/vp9hdr. SID limited to 0-4 (library's documented maximum of 5 spatial layers); P/SS of show_existing_frame frames and frame size 65536 not asserted.",
+    "DESIGN.md 4/C12")
+add("C14", "exploration", "property-based differential testing (rapid) of H265Payloader/H265Packet against an independent RFC 7798 parser, reassembler and encoder; exhaustive enumeration of the header accessor domains",
+    "NAL unit sequences around every threshold are packetised under all option combinations; each payload is parsed by the reference and by H265Packet (all accessors compared), shapes (single, AP minima, FU S/E/FuType/F/layer/TID, DONL placement) and byte-exact reassembly are checked; reference-built single/AP/FU/PACI(+TSCI) payloads with DONL/DOND and every truncation go through H265Packet; all 2^16 payload headers, 2^8 FU headers, 2^16 PACI words and TSCI triples (2^24 thorough) are enumerated. One known finding (DONL in every FU, pinned by a unit test) is excluded by exact signature and counted.",
+    "Trusted base: harness/ref/h265rtp. DON values are not asserted, only field placement; AP header F bit not asserted.",
+    "DESIGN.md 4/C14")
